@@ -803,6 +803,8 @@ fn run_first_use(run: &mut Run, c17: bool) {
             let case = || json!({"job": "first-use", "mode": m, "seed": seed});
             let res = match serde_json::from_str::<serde_json::Value>(&line) {
                 Ok(v) if v["ok"] == json!(true) => Ok(Outcome::new(true, mix(seed, m as u64)).label("first-use-under-contention").with_sample(json!({"mode": m, "threads": 16, "fresh_process": true}))),
+                // all 16 threads wrong: not a race, the plain failure
+                Ok(v) if v["threads_failing"] == json!(16) => Err(Failure::new(v["signature"].as_str().unwrap_or("?").to_string(), v["msg"].as_str().unwrap_or("?").to_string()).with(v["detail"].clone())),
                 Ok(v) => Err(Failure::new(format!("first-use:{}", v["signature"].as_str().unwrap_or("?")), format!("wrong result when 16 threads use blend mode {} for the first time in a process ({} of 16 threads): {}", m, v["threads_failing"], v["msg"].as_str().unwrap_or("?"))).with(v["detail"].clone())),
                 Err(_) => Err(Failure::new("first-use:process-died", format!("process died while 16 threads used blend mode {} for the first time: status {:?}, stderr {}", m, out.status, String::from_utf8_lossy(&out.stderr).chars().take(300).collect::<String>()))),
             };
